@@ -318,9 +318,10 @@ def report(p):
 
 # ----------------------------------------------------------------------------- the interpreter of operations
 class Runner:
-    def __init__(self, tmp, keep_text=False):
+    def __init__(self, tmp, keep_text=False, count_parses=False):
         self.tmp = tmp
         self.keep_text = keep_text
+        self.count_parses = count_parses
         self.problems = {}
         self.n = 0
 
@@ -395,8 +396,9 @@ class Runner:
             return {"t": "report", "sha": report(self._problem(op[1]))}
         if name == "setprop":  # [setprop, self maker, property, value maker]
             _, smaker, prop, vmaker = op
-            obj = MAKERS[smaker]()
-            val = MAKERS[vmaker]()
+            with _ParseCounter(self.count_parses) as counter:
+                obj = MAKERS[smaker]()
+                val = MAKERS[vmaker]()
             owner, pobj = find_decl(obj, prop)
             info = {
                 "self": class_name(type(obj)),
@@ -406,6 +408,7 @@ class Runner:
             }
             has, before = closure_types(pobj)
             info["declared"] = describe_types(before) if has else None
+            info["parses"] = counter.n
             try:
                 setattr(obj, prop, val)
                 out = {"t": "accepted"}
@@ -436,6 +439,36 @@ class _NoProblem(Exception):
     pass
 
 
+class _ParseCounter:
+    """counts the calls of MCNP_Parser.parse while the free-standing objects of a setter call are built (only in
+    correspondence runs: the model has to know how many parses precede the setter; the call itself is delegated)"""
+
+    def __init__(self, active):
+        self.active = active
+        self.n = None
+
+    def __enter__(self):
+        if self.active:
+            from montepy.input_parser.parser_base import MCNP_Parser
+
+            self.n = 0
+            self.cls = MCNP_Parser
+            self.orig = orig = MCNP_Parser.__dict__["parse"]
+            counter = self
+
+            def parse(parser, *a, **k):
+                counter.n += 1
+                return orig(parser, *a, **k)
+
+            MCNP_Parser.parse = parse
+        return self
+
+    def __exit__(self, *exc):
+        if self.active:
+            self.cls.parse = self.orig
+        return False
+
+
 def world_state():
     from montepy.input_parser import input_syntax_reader
     from montepy.input_parser.parser_base import MCNP_Parser
@@ -454,7 +487,7 @@ def execute(run, tmp=None):
         tmp = tempfile.mkdtemp(prefix="c17_")
     obs = []
     try:
-        r = Runner(tmp, keep_text=bool(run.get("text")))
+        r = Runner(tmp, keep_text=bool(run.get("text")), count_parses=bool(run.get("count_parses")))
         for op in run["ops"]:
             try:
                 o = r.do(op)
@@ -491,6 +524,9 @@ def _isolated(run, timeout, tmp):
         try:
             os.close(rfd)
             signal.alarm(timeout)
+            devnull = os.open(os.devnull, os.O_WRONLY)
+            os.dup2(devnull, 2)  # MontePy's warnings (line expansion ...) are not observations
+            warnings.simplefilter("ignore")
             try:
                 out = {"obs": execute(run, tmp)}
             except BaseException as e:  # noqa: BLE001
